@@ -543,6 +543,41 @@ def reply_forms(d):
     return later
 
 
+WRAPPER_DESERIALIZE = (
+    "fndeserialize<SvDeserializerT>(deserializer:SvDeserializerT)->Result<Self,SvDeserializerT::Error>whereSvDeserializerT:#sylvia::serde::Deserializer<'sv_de>,"
+    "{use#sylvia::serde::de::Error;letval=#sylvia::serde_value::Value::deserialize(deserializer)?;letmap=match&val{#sylvia::serde_value::Value::Map(map)=>map,"
+    "_=>returnErr(SvDeserializerT::Error::custom(\"Wrongmessageformat!\"))};ifmap.len()!=1{returnErr(SvDeserializerT::Error::custom(format!(\"Expectedexactlyonemessage.Received{}\",map.len())))}"
+    "letrecv_msg_name=map.into_iter().next().unwrap();if let#sylvia::serde_value::Value::String(recv_msg_name)=&recv_msg_name.0{#(#interfaces_deserialization_attempts)*#contract_deserialization_attempt}"
+    "letmsgs:[&[&str];#variants_cnt]=[#(#messages_call),*];letmuterr_msg=msgs.into_iter().flatten().fold(format!(\"Unsupportedmessagereceived:{}.Messagessupportedbythiscontract:\","
+    "#sylvia::serde_json::to_string(&val).unwrap_or_else(|_|String::new())),|mutacc,message|acc+message+\",\",);err_msg.truncate(err_msg.len()-2);Err(SvDeserializerT::Error::custom(err_msg))}").replace("if let", "iflet")
+ATTEMPT_IFACE = ("{self.interfaces.iter().map(|interface|{letContractMessageAttr{module,variant,..}=interface;letep_name=msg_ty.emit_ep_name();"
+                 "letmessages_fn_name=Ident::new(&format!(\"{}_messages\",ep_name),module.span());quote!{letmsgs=&#module::sv::#messages_fn_name();"
+                 "ifmsgs.into_iter().any(|msg|msg==&recv_msg_name){matchval.deserialize_into(){Ok(msg)=>returnOk(Self::#variant(msg)),"
+                 "Err(err)=>returnErr(SvDeserializerT::Error::custom(err)).map(Self::#variant),};}}}).collect()}")
+ATTEMPT_CONTRACT = ("letcontract_deserialization_attempt=quote!{letmsgs=&#messages_fn_name();ifmsgs.into_iter().any(|msg|msg==&recv_msg_name){matchval.deserialize_into(){"
+                    "Ok(msg)=>returnOk(Self::#contract_name(msg)),Err(err)=>returnErr(SvDeserializerT::Error::custom(err)).map(Self::#contract_name)};}};")
+MESSAGES_ORDER = "letmutmessages_call=interfaces.emit_messages_call(msg_ty);messages_call.push(quote!{&#messages_fn_name()});letvariants_cnt=messages_call.len();"
+OVERLAP_ASSERT = "const_:()={letmsgs:[&[&str];#variants_cnt]=[#(#messages_call),*];#sylvia::utils::assert_no_intersection(msgs);};matchself{#(#dispatch_arms,)*#dispatch_arm}"
+
+
+def wrapper_forms(d):
+    """the hand-written Deserialize of the contract-level message, the order in which the parts are consulted and the build-time overlap check:
+    the source forms `Serde.wrapperDecode` / `Gen.parts` mirror"""
+    out = []
+    fn = d.fn("contract/communication/wrapper_msg.rs", "GlueMessage", "emit")
+    body = (fn or {}).get("body") or ""
+    out.append(("deserialize", WRAPPER_DESERIALIZE in body))
+    out.append(("attempt-contract", ATTEMPT_CONTRACT in body))
+    out.append(("parts-order", MESSAGES_ORDER in body))
+    out.append(("overlap-assert", OVERLAP_ASSERT in body))
+    fn = d.fn("types/interfaces.rs", "Interfaces", "emit_deserialization_attempts")
+    out.append(("attempt-interface", fn is not None and fn["body"] == ATTEMPT_IFACE))
+    for name, ok in out:
+        if not ok:
+            d.problems.append("contract-level message: source form `%s` no longer recognised" % name)
+    return out
+
+
 DOWNCAST_ERROR_BODY = ("{iferr.is::<Error>(){err.downcast::<Error>().unwrap()}elseiferr.is::<StdError>(){err.downcast::<StdError>().unwrap().into()}"
                        "else{StdError::generic_err(err.to_string()).into()}}")
 MT_FILES = ("contract/mt.rs", "interface/mt.rs", "rt:multitest.rs")
@@ -727,6 +762,7 @@ def generate(dump_lines):
     later = reply_forms(d)
     sites = template_sites(d)
     mt = mt_tables(d)
+    wforms = wrapper_forms(d)
 
     o = []
     o.append("import Sylvia.Model.Kinds")
@@ -775,6 +811,8 @@ def generate(dump_lines):
     o.append("def mtForms : List (Str × Bool) := %s" % llist("(%s, %s)" % (lstr(a), "true" if b else "false") for a, b in mt["forms"]))
     o.append("/-- `impl cw_multi_test::Contract`: (operation, message kind whose override / default dispatch is spliced into it) -/")
     o.append("def mtContractBodies : List (Str × Str) := %s" % llist("(%s, %s)" % (lstr(a), lstr(b)) for a, b in mt["bodies"]))
+    o.append("/-- contract-level message: recognised source forms (value pass, single-key check, parts consulted in order, unknown-name text, overlap assertion) -/")
+    o.append("def wrapperForms : List (Str × Bool) := %s" % llist("(%s, %s)" % (lstr(a), "true" if b else "false") for a, b in wforms))
     o.append("def epDefaults : List Kind := %s" % llist("." + KINDS[k] for k in (ep.get("defaults") or []) if k in KINDS))
     o.append("")
     o.append("end Extracted")
